@@ -492,6 +492,8 @@ def rids_of(x):
     """All recording-callable ids inside an expression slot."""
     if isinstance(x, int):
         return [x]
+    if getattr(x, 'NO_SLOTS', False):
+        return []           # a node without expression slots of its own (its int attributes are not recording-callable ids)
     out = []
     for v in vars(x).values():
         if isinstance(v, (int, Expr)) and not isinstance(v, bool):
